@@ -94,6 +94,7 @@ type linCtx struct {
 	c    *Ctx
 	fn   *ssa.Function
 	vars map[string]ssa.Value // variable name -> representative value
+	busy map[ssa.Value]bool
 }
 
 func (lc *linCtx) varName(v ssa.Value) string {
@@ -202,7 +203,21 @@ func (lc *linCtx) lin(v ssa.Value, d int) []linAlt {
 			return out
 		}
 	case *ssa.Phi:
-		// case split on incoming edges, each with the facts of its edge
+		// case split on incoming edges, each with the facts of its edge (join phis only: loop phis stay opaque)
+		isLoop := false
+		for _, p := range x.Block().Preds {
+			if x.Block() == p || x.Block().Dominates(p) {
+				isLoop = true
+			}
+		}
+		if isLoop || lc.busy[x] {
+			break
+		}
+		if lc.busy == nil {
+			lc.busy = map[ssa.Value]bool{}
+		}
+		lc.busy[x] = true
+		defer delete(lc.busy, x)
 		var out []linAlt
 		for i, e := range x.Edges {
 			pred := x.Block().Preds[i]
